@@ -177,11 +177,11 @@ class Prop(PropBase):
     def _args(self, rng, op, c, shape):
         N = shape[0]
         if op == "time_shift":
-            return {"shift": rng.choice([1, -2, 2.5, -0.75, 7.25, N + 3]), "crop": rng.random() < 0.4, "quantity": rng.random() < 0.3}
+            return {"shift": rng.choice([1, -2, 2.5, -0.75, 7.25, N + 3, 0, -N]), "crop": rng.random() < 0.4, "quantity": rng.random() < 0.3}
         if op == "time_shift_arr":
             return {"shifts": [round(rng.uniform(-4, 4), 2) for _ in range(shape[1])], "crop": rng.random() < 0.4}
         if op == "freq_shift":
-            return {"frac": rng.choice([0.25, -0.125, 0.5, 0.0625, -0.3])}
+            return {"frac": rng.choice([0.25, -0.125, 0.5, 0.0625, -0.3, 0.25, -0.3, 1.0, -1.5, 0.0])}      # also wholly out of band, and no shift at all
         if op == "chirp":
             # the chirp itself, also with very large phases (large DM, reference far outside the band or at infinity): the lazy
             # and the eager chirp are the same function of the same numbers — bit for bit
